@@ -1286,7 +1286,8 @@ func nodePart(run *ev.Run) {
 		}
 	}
 	if want := fmt.Sprintf("orphan=false err=<nil>"); len(l.Steps) > 0 && !strings.HasPrefix(l.Steps[len(l.Steps)-1], want) {
-		ev.Fatal("the factory chain is not accepted on leveldb: %v", l.Steps)
+		// a difference between the backends was reported above; a chain refused by both alike is equal behaviour
+		run.Capped(fmt.Sprintf("node part: could not be set up: the factory chain is not accepted on leveldb: %v", l.Steps))
 	}
 	if m.Main != l.Main {
 		run.Violation("node-main-chain-differs-between-backends", fmt.Sprintf("memdb %q, leveldb %q", m.Main, l.Main), map[string]interface{}{"memdb": m.Main, "leveldb": l.Main})
